@@ -10,8 +10,8 @@
    - [re_of_tok], [translate], [print]   what the rules emit; [print (translate k toks)] must be
                           TEXTUALLY the string the real _sub_* returns (checked by the run)
    - [M]                  denotational semantics of the regex AST (relation between the input
-                          suffix before and after the match; '.' excludes \n, '$' accepts a final \n,
-                          as Python re without DOTALL/MULTILINE)
+                          suffix before and after the match; '.' excludes \n except inside (?s:...),
+                          \Z matches only at the very end)
    - [run]                executable backtracking matcher (all continuations, in priority order)
    - [gm], [glob_match]   REFERENCE semantics of glob patterns, written from `brz help patterns`
    - [identify], [chunk], [batches], [globster], [exc_match], [ordered_globster]
@@ -244,14 +244,15 @@ Definition opaque (p : str) : bool :=
 Inductive re :=
 | REps
 | RChr (esc : bool) (c : N)        (* c  or  \c *)
-| RAny                             (* .  (not \n) *)
+| RAny                             (* .  (not \n, unless inside (?s:...)) *)
 | RSet (neg : bool) (body : str)   (* [body] / [^body] *)
 | RCat (a b : re)
 | RStar (a : re)                   (* a*  (a atomic) *)
-| ROpt (a : re)                    (* (?:a)? *)
+| ROpt (a : re)                    (* a?  (a a group) *)
 | RNLook (a : re)                  (* (?!a) *)
 | RGrp (a : re)                    (* (?:a) *)
-| REol.                            (* $ *)
+| RS (a : re)                      (* (?s:a)  : '.' matches every character inside *)
+| REol.                            (* \Z *)
 
 Fixpoint print (r : re) : str :=
   match r with
@@ -262,10 +263,11 @@ Fixpoint print (r : re) : str :=
   | RSet neg body => cLB :: (if neg then [cCaret] else []) ++ body ++ [cRB]
   | RCat a b => print a ++ print b
   | RStar a => print a ++ [cStar]
-  | ROpt a => [40; 63; 58] ++ print a ++ [41; 63]
+  | ROpt a => print a ++ [63]
   | RNLook a => [40; 63; 33] ++ print a ++ [41]
   | RGrp a => [40; 63; 58] ++ print a ++ [41]
-  | REol => [36]
+  | RS a => [40; 63; 115; 58] ++ print a ++ [41]
+  | REol => [92; 90]
   end.
 
 (* Python's parse of the inside of a character set (no backslash, no '[' inside):
@@ -292,24 +294,26 @@ Definition set_mem (neg : bool) (body : str) (c : N) : bool :=
   | None => false
   end.
 
-(* M r w w' : starting at input suffix w, r can match leaving suffix w' *)
-Fixpoint M (r : re) (w w' : str) {struct r} : Prop :=
+(* M r s w w' : starting at input suffix w, r can match leaving suffix w';
+   s = "inside a (?s:...) group" (DOTALL) *)
+Fixpoint M (r : re) (s : bool) (w w' : str) {struct r} : Prop :=
   match r with
   | REps => w' = w
   | RChr _ c => w = c :: w'
-  | RAny => exists c, w = c :: w' /\ (c =? cNL) = false
+  | RAny => exists c, w = c :: w' /\ (s || negb (c =? cNL)) = true
   | RSet neg body => exists c, w = c :: w' /\ set_mem neg body c = true
-  | RCat a b => exists w1, M a w w1 /\ M b w1 w'
-  | RStar a => clos_refl_trans_1n str (M a) w w'
-  | ROpt a => M a w w' \/ w' = w
-  | RNLook a => w' = w /\ ~ (exists w2, M a w w2)
-  | RGrp a => M a w w'
-  | REol => w' = w /\ (w = [] \/ w = [cNL])
+  | RCat a b => exists w1, M a s w w1 /\ M b s w1 w'
+  | RStar a => clos_refl_trans_1n str (M a s) w w'
+  | ROpt a => M a s w w' \/ w' = w
+  | RNLook a => w' = w /\ ~ (exists w2, M a s w w2)
+  | RGrp a => M a s w w'
+  | RS a => M a true w w'
+  | REol => w' = w /\ w = []
   end.
 
-(* '$' : at the end, or before a final newline *)
+(* '\Z' : only at the very end *)
 Definition eol_ok (w : str) : bool :=
-  match w with [] => true | [x] => x =? cNL | _ => false end.
+  match w with [] => true | _ :: _ => false end.
 
 (* the executable matcher: every possible remaining suffix, in the order a backtracking
    engine explores them (greedy star, optional tried first) *)
@@ -320,17 +324,18 @@ Fixpoint star_run (f : str -> list str) (fuel : nat) (w : str) : list str :=
            ++ [w]
   end.
 
-Fixpoint run (r : re) (w : str) {struct r} : list str :=
+Fixpoint run (r : re) (s : bool) (w : str) {struct r} : list str :=
   match r with
   | REps => [w]
   | RChr _ c => match w with x :: w' => if x =? c then [w'] else [] | [] => [] end
-  | RAny => match w with x :: w' => if x =? cNL then [] else [w'] | [] => [] end
+  | RAny => match w with x :: w' => if s || negb (x =? cNL) then [w'] else [] | [] => [] end
   | RSet neg body => match w with x :: w' => if set_mem neg body x then [w'] else [] | [] => [] end
-  | RCat a b => flat_map (run b) (run a w)
-  | RStar a => star_run (run a) (length w) w
-  | ROpt a => run a w ++ [w]
-  | RNLook a => match run a w with [] => [w] | _ :: _ => [] end
-  | RGrp a => run a w
+  | RCat a b => flat_map (run b s) (run a s w)
+  | RStar a => star_run (run a s) (length w) w
+  | ROpt a => run a s w ++ [w]
+  | RNLook a => match run a s w with [] => [w] | _ :: _ => [] end
+  | RGrp a => run a s w
+  | RS a => run a true w
   | REol => if eol_ok w then [w] else []
   end.
 
@@ -339,9 +344,9 @@ Definition re_of_tok (k : kind) (t : tok) : re :=
   match t with
   | TLit c => RChr (special c) c
   | TEsc c => RChr true c
-  | TStar => match k with KFull => RStar (RSet true [cSlash]) | _ => RStar RAny end
-  | TQuest => match k with KFull => RSet true [cSlash] | _ => RAny end
-  | TDirs => ROpt (RCat (RStar RAny) (RChr false cSlash))
+  | TStar => match k with KFull => RStar (RSet true [cSlash]) | _ => RS (RStar RAny) end
+  | TQuest => match k with KFull => RSet true [cSlash] | _ => RS RAny end
+  | TDirs => ROpt (RS (RCat (RStar RAny) (RChr false cSlash)))
   | TClass neg body => RSet neg body
   end.
 
@@ -355,8 +360,8 @@ Fixpoint translate (k : kind) (toks : list tok) : re :=
 Definition dirs_re : re := RCat (RStar RAny) (RChr false cSlash).      (* .*/ *)
 Definition prefix_re (k : kind) : re :=
   match k with
-  | KExt => RCat (ROpt dirs_re) (RCat (RNLook dirs_re) (RGrp (RCat (RStar RAny) (RChr true cDot))))
-  | KBase => RCat (ROpt dirs_re) (RNLook dirs_re)
+  | KExt => RS (RCat (ROpt (RGrp dirs_re)) (RCat (RNLook dirs_re) (RGrp (RCat (RStar RAny) (RChr true cDot)))))
+  | KBase => RS (RCat (ROpt (RGrp dirs_re)) (RNLook dirs_re))
   | KFull => REps
   end.
 
@@ -372,7 +377,7 @@ Fixpoint join_bar (l : list str) : str :=
   end.
 Definition joined_rule (k : kind) (pats : list str) : str :=
   print (prefix_re k) ++ [40; 63; 58]
-  ++ join_bar (map (fun p => [40] ++ print (compile k p) ++ [41]) pats) ++ [41; 36].
+  ++ join_bar (map (fun p => [40] ++ print (compile k p) ++ [41]) pats) ++ [41; 92; 90].
 
 (* ------------------------------------------------------------------ *)
 (* well-formed tokens: those whose printed form Python's re parses back to [re_of_tok].
@@ -449,14 +454,13 @@ Definition glob_match (p : str) (name : str) : bool :=
 
 (* the single-pattern regex  pre(?:(a))$  matches (re.match: anchored at the start only) *)
 Definition hit (pre a : re) (w : str) : Prop :=
-  exists w', M (RCat pre (RCat (RGrp a) REol)) w w'.
+  exists w', M (RCat pre (RCat (RGrp a) REol)) false w w'.
 
-Definition nonl (w : str) : bool := forallb (fun c => negb (c =? cNL)) w.
 
 Fixpoint first_alt (alts : list re) (i : nat) (w1 : str) : option nat :=
   match alts with
   | [] => None
-  | a :: t => if existsb eol_ok (run a w1) then Some (S i) else first_alt t (S i) w1
+  | a :: t => if existsb eol_ok (run a false w1) then Some (S i) else first_alt t (S i) w1
   end.
 
 Fixpoint first_some {A B} (f : A -> option B) (l : list A) : option B :=
@@ -466,7 +470,7 @@ Fixpoint first_some {A B} (f : A -> option B) (l : list A) : option B :=
   end.
 
 Definition bt_lastindex (pre : re) (alts : list re) (w : str) : option nat :=
-  first_some (first_alt alts 0) (run pre w).
+  first_some (first_alt alts 0) (run pre false w).
 
 Definition bt_engine (k : kind) (pats : list str) (name : str) : option nat :=
   bt_lastindex (prefix_re k) (map (compile k) pats) name.
